@@ -64,8 +64,25 @@ def allDefsGs (V : Nat → ValueS) : List GraphT → List Nat
   | g :: gs => allDefsG V g ++ allDefsGs V gs
 end
 
+mutual
+def infoGB (V : Nat → ValueS) : GraphT → Bool
+  | .mk _ ins inits nodes outs =>
+    inits.all (fun kv => ins.contains kv.2 || outs.contains kv.2 ||
+      ((V kv.2).info.ty.isSome && (V kv.2).info.sh.isSome)) && infoNsB V nodes
+def infoNsB (V : Nat → ValueS) : List NodeT → Bool
+  | [] => true
+  | n :: ns => infoNB V n && infoNsB V ns
+def infoNB (V : Nat → ValueS) : NodeT → Bool
+  | .mk _ _ _ outs subs =>
+    (stripTrailing V outs).all (fun v => nameTruthy (V v).name ||
+      ((V v).info.ty.isNone && (V v).info.doc.isNone)) && infoGsB V subs
+def infoGsB (V : Nat → ValueS) : List GraphT → Bool
+  | [] => true
+  | g :: gs => infoGB V g && infoGsB V gs
+end
+
 /-- the decision procedure for `Serializable` -/
 def serializableB (w : World) : Bool :=
-  nodupB (allDefsG w.st.vals w.root) && serGB w.st.vals [] w.root
+  nodupB (allDefsG w.st.vals w.root) && serGB w.st.vals [] w.root && infoGB w.st.vals w.root
 
 end IrVerif.Scope
